@@ -93,7 +93,7 @@ func c16Types(n int) []string {
 					if strings.Contains(t, "): ") || strings.HasSuffix(t, ")") && strings.Contains(t, "fun(") && strings.Contains(t, ":") {
 						pt = "(" + t + ")" // a fun type with a return list swallows a following ", T"
 					}
-					out = append(out, t+" | "+u, "table<"+pt+", "+u+">", "fun(p: "+pt+", q?: "+u+")", "fun(p: "+t+"): "+u, "("+t+" | "+u+")[]")
+					out = append(out, t+" | "+u, "table<"+pt+", "+u+">", "fun(p: "+pt+", q?: "+u+")", "fun(p?: "+pt+", q: "+u+")", "fun(p: "+t+"): "+u, "("+t+" | "+u+")[]")
 					if n-1-a == 1 && a == 1 {
 						out = append(out, "fun(): "+t+", "+u)
 					}
@@ -411,7 +411,7 @@ func init() {
 	core.Register(&core.Check{
 		ID:        "C16",
 		Technique: "bounded-exhaustive derivation enumeration of the documented annotation grammar (all type expressions up to a node bound in every statement kind) against an independent reference reader with canonical S-expressions, print/re-read round trip, and all single-token corruptions of documented lines embedded between good neighbours on the real server",
-		Rule: "lines: every type expression with <=3 (quick) / <=4 (thorough) constructor nodes over {NAME, T[], (T|T)[], T|T, table<T,T>, table, fun(), fun(p:T), fun(p:T,q?:T), fun(p:T):T, fun():T,T} in ---@type/field (3 visibilities)/param (optional marker)/return/alias/vararg with and without @comment, two-type return/type lists, class/generic/overload/enum forms; " +
+		Rule: "lines: every type expression with <=3 (quick) / <=4 (thorough) constructor nodes over {NAME, T[], (T|T)[], T|T, table<T,T>, table, fun(), fun(p:T), fun(p:T,q?:T), fun(p?:T,q:T), fun(p:T):T, fun():T,T} in ---@type/field (3 visibilities)/param (optional marker)/return/alias/vararg with and without @comment, two-type return/type lists, class/generic/overload/enum forms; " +
 			"oracle: (i) accepted without error as exactly one statement, (ii) the understood tree equals the reference tree, (iii) TypeConvertStr of the understood type parses back to the same tree; corruptions: each token of 11 documented lines replaced by each of 16 tokens (or deleted), placed between good annotation lines above a declaration: the Lua diagnostics are unchanged, any type-18 warning lies on the corrupted line, the neighbouring class members are still understood. " +
 			"states = lines judged; non-trivial = lines with a composite type",
 		Assumptions: []string{"the reference grammar is the one written in internal/annref (from docs/manual/annotate.md): '[]' binds tighter than '|', parentheses group, fun return lists extend to the end of the type"},
